@@ -39,6 +39,9 @@ def check(run, M, tier):
     _g3(run, M, base)
     _g4(run, M, alg)
     _g5(run, M)
+    if tier == "thorough":
+        _g5(run, M, nops=4, rank=3, tag=" (4 operands, rank 3)")
+        _g5(run, M, nops=2, rank=1, tag=" (2 operands, rank 1)")
     check_raw_axes(run, M, "G6", scope="C03")
 
 
@@ -386,37 +389,47 @@ def _g4(run, M, alg):
 
 
 # ------------------------------------------------------------------------------------------ G5
-def _g5(run, M):
-    names = ["a", "b", "c"]
+def _g5(run, M, nops=3, rank=2, tag=""):
+    names = ["a", "b", "c", "d", "e"][:nops]
     for q in ("sigpy.linop._hstack_params", "sigpy.linop._vstack_params"):
         f = M.func(q)
         short = q.split(".")[-1]
-        for axis in (0, 1, -1, -2):
-            shapes = tuple((S(n + "0"), S(n + "1")) for n in names)
+        for axis in list(range(rank)) + [-(k + 1) for k in range(rank)]:
+            shapes = tuple(tuple(S(n + str(j)) for j in range(rank)) for n in names)
             outs = VN(M, f, loop_hook=unroll_loop).run(f.body, State({"shapes": shapes, "axis": T.const(axis)}))
-            k = axis % 2
-            j = 1 - k
+            k = axis % rank
             rets = [o for o in outs if o.status == "return"]
-            tot = T.add(T.add(shapes[0][k], shapes[1][k]), shapes[2][k])
-            want_shape = [None, None]
+            tot = shapes[0][k]
+            for n in range(1, nops):
+                tot = T.add(tot, shapes[n][k])
+            want_shape = [shapes[0][j] for j in range(rank)]
             want_shape[k] = tot
-            want_shape[j] = shapes[0][j]
-            want_idx = (shapes[0][k], T.add(shapes[0][k], shapes[1][k]))
+            idx = []
+            run_sum = shapes[0][k]
+            for n in range(1, nops):
+                idx.append(run_sum)
+                run_sum = T.add(run_sum, shapes[n][k])
+            want_idx = tuple(idx)
             ok = len(rets) == 1 and isinstance(rets[0].ret, tuple) and len(rets[0].ret) == 2 and val_eq(rets[0].ret[0], tuple(want_shape)) \
                 and val_eq(rets[0].ret[1], want_idx)
             want_conds = set()
-            for n in (1, 2):
-                d = T.sub(shapes[n][j], shapes[0][j])
-                nd = T.neg(d)
-                if repr(nd.key()) < repr(d.key()):
-                    d = nd
-                want_conds.add(T.app("zero", d).key())
+            for n in range(1, nops):
+                for j in range(rank):
+                    if j == k:
+                        continue
+                    d = T.sub(shapes[n][j], shapes[0][j])
+                    nd = T.neg(d)
+                    if repr(nd.key()) < repr(d.key()):
+                        d = nd
+                    want_conds.add(T.app("zero", d).key())
             ok_c = ok and {c.key() for c in rets[0].conds} == want_conds and all(o.status == "raise" for o in outs if o is not rets[0])
-            run.check(ok and ok_c, "G5", "%s axis=%d" % (short, axis), f.loc(),
+            run.check(ok and ok_c, "G5", "%s axis=%d%s" % (short, axis, tag), f.loc(),
                       "shape (%s), indices (%s), raise on off-axis mismatch" % (_show(tuple(want_shape)), _show(want_idx)),
-                      "%s([a, b, c], axis=%d) gives %s under [%s]; expected shape %s and split indices %s, raising iff an off-axis size differs"
-                      % (short, axis, _show(rets[0].ret) if rets else "no result", cond_text(rets[0].conds) if rets else "", _show(tuple(want_shape)), _show(want_idx)),
-                      stmt="G5:%s:%d" % (short, axis))
+                      "%s over %d operands of rank %d, axis=%d gives %s under [%s]; expected shape %s and split indices %s, raising iff an off-axis size differs"
+                      % (short, nops, rank, axis, _show(rets[0].ret) if rets else "no result", cond_text(rets[0].conds) if rets else "", _show(tuple(want_shape)), _show(want_idx)),
+                      stmt="G5:%s:%d:%s" % (short, axis, tag))
+        if tag:
+            continue
         # rank mismatch raises
         outs = VN(M, f, loop_hook=unroll_loop).run(f.body, State({"shapes": ((S("a0"), S("a1")), (S("b0"),)), "axis": T.const(0)}))
         run.check(all(o.status == "raise" for o in outs) and outs, "G5", short + " rank", f.loc(), "operands of different rank are rejected",
